@@ -147,13 +147,15 @@ func c07FromTimeIn(w *rt.W, t time.Time) {
 
 // c07FromTime checks conversion of the instant unixSec shown in a fixed zone.
 func c07FromTime(w *rt.W, unixSec int64, offset int) {
-	t := time.Unix(unixSec, 0).In(time.FixedZone("Z", offset))
+	// the zone's name says nothing about its offset: zones called UTC, GMT, Local or nothing at all are legal for any offset
+	name := []string{"Z", "UTC", "GMT", "Local", "", "UTC+2", "CET", "utc"}[uint64(unixSec^int64(offset)*31)%8]
+	t := time.Unix(unixSec, 0).In(time.FixedZone(name, offset))
 	if t.IsZero() {
 		w.DontCare("zero time.Time")
 		return
 	}
 	wy, wm, wd := ref.Civil(floorDiv64(unixSec+int64(offset), 86400))
-	args := rt.Args("unix_sec", unixSec, "offset_sec", offset, "time", t.Format(time.RFC3339))
+	args := rt.Args("unix_sec", unixSec, "offset_sec", offset, "time", t.Format(time.RFC3339), "zone_name", name)
 	c07CheckDate(w, "fromtime-func", "fromtime", args, date.FromTime(t), wy, wm, wd)
 	var d date.Date
 	d.FromTime(t)
